@@ -68,6 +68,13 @@ CLAIMS = {
          "Trusted: vf/gen_pattern.py interpreter (from the docstring; agreement with to_dense asserted on every input), torch CPU kernels as reference, Hypothesis. "
          "Mixed-dtype operands, norm and repeat are not generated (outside the statement).",
          "DESIGN.md section 5, C06"),
+ 'C08': ("Hypothesis-generated carrier triples (incl. zero, infinite element, subnormals, huge values, values at the radius of convergence) checked against the algebraic laws with per-law exactness classes; Bool exhaustive; closed-form star oracle in high-precision decimal; Tensor-vs-PatternedTensor differential",
+         "Each semiring x dtype: commutativity, identities, annihilation (incl. 0*inf), add_=add bit-exactly; sum=fold, associativity, distributivity, from_int "
+         "homomorphism and sub(x,y)+y=x within 4 ulp / 8 eps absolute on triples whose exact partial results (fractions) stay in the normal range; star against "
+         "the closed form of the least solution (1/(1-x), -log(1-e^x) in 60-420-digit decimal, 0/inf, True); add/mul/sub on typed PatternedTensors must equal "
+         "the Tensor result. Bool: all 8 triples in every case. Sampled for the float carriers.",
+         "Trusted: Python fractions/decimal as exact arithmetic, vf/gen_pattern.py for patterned operands, Hypothesis. IEEE range effects are skipped and counted, not judged.",
+         "DESIGN.md section 5, C08"),
 }
 
 NOT_YET = {}   # id -> reason (filled while the framework is being built)
